@@ -675,6 +675,14 @@ fn carrier_name(in_fopts: bool, len: usize) -> &'static str {
 }
 
 fn prepare(reg: Reg, front: Front, rng: &mut Prng) -> Option<Link> {
+    let link = prepare_inner(reg, front, rng)?;
+    // the radio reports whatever signal-to-noise ratio it measured (an i8): also values beyond the
+    // 6-bit margin field of DevStatusAns
+    link.dev.log.borrow_mut().snr = *rng.pick(&[5i8, 5, 5, 0, -1, -20, -32, -33, -40, -128, 31, 32, 33, 60, 127]);
+    Some(link)
+}
+
+fn prepare_inner(reg: Reg, front: Front, rng: &mut Prng) -> Option<Link> {
     // fixed plans, half of the time: an OTAA device with a join bias whose retries are not used up
     // (the bias keeps steering the data uplinks until the network sends a channel mask)
     if reg.fixed() && rng.bool() {
